@@ -198,7 +198,8 @@ def _extract_exec_inner_command(tokens: list[str]) -> list[str] | None:
     while i < len(tokens):
         token = tokens[i]
         if token == "--":
-            i += 1
+            # End of options; the next word is still the container name
+            i += 2
             break
         if token in EXEC_FLAGS_WITH_ARG:
             i += 2
